@@ -157,6 +157,7 @@ def _raise(exc_name, exc_args, chain, runtime_class=False):
     raise EXC[exc_name](*exc_args)
 
 
+FILE_ENTRIES = ("visual_legacy", "processing_loop")
 _LEGACY: dict = {}  # file name -> payload spec, for the legacy entry (payloads are plain path strings)
 
 
@@ -194,6 +195,28 @@ def pick_str(x):
 PICKABLE = {"identity": None, "str": pick_str}
 
 
+class StubBarRow:
+    """Stands in for tatsu.barz.BarRow / Multi (the display: a real thread with real sleeps)."""
+
+    def __init__(self, *a, **k):
+        self.updates = 0
+
+    def update(self, *a, **k):
+        self.updates += 1
+
+    def start(self, *a, **k):
+        pass
+
+    def stop(self, *a, **k):
+        pass
+
+    def print(self, *a, **k):  # noqa: A003
+        pass
+
+    def add_row(self, *a, **k):
+        pass
+
+
 class StubProgress:
     def __init__(self):
         self.updates = 0
@@ -211,7 +234,7 @@ def gen_spec(seed: int, config: str | None = None) -> dict:
     bug = random.Random(derive(seed, "buggify"))
     if config is None:
         config = "captured" if rng.random() < 0.85 else "uncaptured"
-    entry = rng.choice(["parproc", "parproc", "parproc", "parallel_proc", "parallel_proc", "parproc_visual", "parproc_visual", "visual_legacy"])
+    entry = rng.choice(["parproc", "parproc", "parproc", "parallel_proc", "parallel_proc", "parproc_visual", "parproc_visual", "visual_legacy", "processing_loop"])
     pool = "process" if rng.random() < 0.8 else "thread"
     cpu_count = rng.choice([1, 2, 3, 4])
     max_workers = rng.choice([None, None, 1, 1, 2, 3, 4, 5])
@@ -225,14 +248,15 @@ def gen_spec(seed: int, config: str | None = None) -> dict:
         n = rng.choice([16, 17, 20, 32, 33, 40, 64])
     p_raise = rng.choice([0.0, 0.1, 0.3, 0.6, 1.0])
     payloads = []
-    visual = entry in ("parproc_visual", "visual_legacy")
+    visual = entry in ("parproc_visual", "visual_legacy", "processing_loop")
+    by_path = entry in FILE_ENTRIES  # the caller hands over file names; the library builds the payload objects
     for k in range(n):
         p = {"key": k, "cls": "visual" if (visual or rng.random() < 0.3) else "plain", "behave": "ok",
              "value": rng.choice([k * 7, f"v{k}", [k, "x"], {"k": k}, None, 0, "", [[]], [], {}, False, 0.0]),
              "exc": None, "exc_args": [], "raises": []}
         if rng.random() < 0.3:
             p["ret"] = "raw"  # the function returns the value itself (falsy outcomes such as 0, '', [] included)
-        if rng.random() < 0.04 and entry != "visual_legacy":
+        if rng.random() < 0.04 and not by_path:
             p["deep"] = rng.choice([1500, 3000])  # needs more than the default recursion limit
         if rng.random() < p_raise:
             p["behave"] = "raise"
@@ -259,14 +283,14 @@ def gen_spec(seed: int, config: str | None = None) -> dict:
             # raises() declared although the payload succeeds: must make no difference
             if rng.random() < 0.2:
                 p["raises"] = [rng.choice(CAPTURABLE)]
-        if entry == "visual_legacy":
+        if by_path:
             p["raises"] = []
-        if p["behave"] == "ok" and rng.random() < 0.04 and entry != "visual_legacy":
+        if p["behave"] == "ok" and rng.random() < 0.04 and not by_path:
             # the function RETURNS an exception instance as its outcome; declared in raises() or not, it is an outcome
             name = rng.choice(["ValueError", "KeyError", "OSError", "CustomParseError", "RecursionError", "LookupError"])
             p["retexc"] = [name, rng.choice([[], [f"finding{k}"], ["two", k]])]
             p["raises"] = rng.choice([[name], [name], [SUPER.get(name, "Exception")], ["Exception"], [], ["ZeroDivisionError"]])
-        if rng.random() < 0.03 and entry != "visual_legacy" and not p.get("retexc"):
+        if rng.random() < 0.03 and not by_path and not p.get("retexc"):
             # the outcome (or the captured exception) cannot be pickled: with a process pool the loop may raise a pickling
             # error, but it must still not hand out anything twice or wrong
             p["nopickle"] = "outcome" if p["behave"] == "ok" else "exception"
@@ -287,7 +311,7 @@ def gen_spec(seed: int, config: str | None = None) -> dict:
         "consumer": rng.choice(["stream", "keep"]),
         "pickle": bug.random() < 0.5,
         "pickable": rng.choice(["identity", "identity", "str"]),
-        "extra_args": rng.choice([[], [], [1], ["a", 2]]),
+        "extra_args": rng.choice([[], [], [1], ["a", 2]]) if entry != "processing_loop" else [],
         "extra_kwargs": rng.choice([{}, {}, {"kw": 1}, {"a": "b", "c": [1]}]),
         "reraise": False,
         "summary": rng.random() < 0.5,
@@ -309,7 +333,7 @@ def gen_spec(seed: int, config: str | None = None) -> dict:
         if mode == "runtime":
             p["exc"] = rng.choice(RUNTIME_FAMILY)
             p["raises"] = []
-        elif mode == "outside" and entry != "visual_legacy":
+        elif mode == "outside" and not by_path:
             p["exc"] = "ValueError"
             p["raises"] = ["KeyError"]
         else:
@@ -354,7 +378,7 @@ def canon(x):
 def build_payloads(spec: dict):
     _ensure_classes()
     out = []
-    if spec["entry"] == "visual_legacy":
+    if spec["entry"] in FILE_ENTRIES:
         # legacy protocol: payloads are path strings of real files (read again by the summary)
         import os
 
@@ -437,6 +461,11 @@ def patched(env: execseam.ExecEnv | None, spec: dict, sim: Sim):
         setattr_(m_task, "memory_use", lambda: 0)
         setattr_(m_task, "time", SimTime(sim))
         setattr_(m_visual, "time", SimTime(sim))
+        if spec["entry"] == "processing_loop":
+            import tatsu.barz as barz
+
+            setattr_(barz, "BarRow", StubBarRow)
+            setattr_(barz, "Multi", StubBarRow)
         yield
     finally:
         for obj, name, old in reversed(saved):
@@ -451,6 +480,21 @@ def patched(env: execseam.ExecEnv | None, spec: dict, sim: Sim):
 
 
 _MISSING = object()
+
+
+def _quiet(gen):
+    """The library's own display writes cursor control sequences to stdout: keep them out of the check's output."""
+    import contextlib
+    import io
+
+    buf = io.StringIO()
+    while True:
+        with contextlib.redirect_stdout(buf):
+            try:
+                r = next(gen)
+            except StopIteration:
+                return
+        yield r
 
 
 def call_entry(spec: dict, payloads, parallel: bool, sink: list):
@@ -480,6 +524,13 @@ def call_entry(spec: dict, payloads, parallel: bool, sink: list):
         if spec["max_workers"] is not None:
             kw["max_workers"] = spec["max_workers"]
         return pp.parallel_proc(payloads, work, *args, **kw)
+    if entry == "processing_loop":
+        # file names in, the library reads the files and builds VisualPayload objects, and (no progress object can be
+        # passed) makes its own display, which is stubbed (tatsu.barz: a real thread with real sleeps, display only).
+        # Extra positional arguments are not passed: this signature hands the first of them to the display parameter.
+        return _quiet(pp.processing_loop(payloads, work, eprint=lambda *a, **k: sink.append(len(a)),
+                                         summary=spec["summary"], verbose=spec["verbose"], usecolor=False,
+                                         max_workers=spec["max_workers"], **kw))
     if entry == "visual_legacy":
         prog = StubProgress()
         return pp.parproc_visual(
@@ -513,6 +564,12 @@ def _key_of_task(args):
 def observe(r) -> tuple:
     """(key, outcome, exception) of one yielded Result, canonical."""
     key = getattr(r.payload, "key", None)
+    if key is None and not isinstance(r.payload, (str, Path)) and hasattr(r.payload, "path"):
+        # processing_loop: the payload object was built by the library from the file name; it must carry that file's text
+        m = __import__("re").search(r"file(\d+)\.txt$", str(r.payload.path))
+        key = int(m.group(1)) if m else None
+        if key is not None and getattr(r.payload, "payload", None) != f"line {key}\n// c\n\n":
+            key = f"{key}:wrong-text"
     if key is None and isinstance(r.payload, (str, Path)):
         m = __import__("re").search(r"file(\d+)\.txt$", str(r.payload))  # legacy entry: the payload is given back as its path
         key = int(m.group(1)) if m else None
@@ -848,7 +905,7 @@ def shrink_candidates(spec: dict):
 def spec_size(spec: dict) -> int:
     """Complexity measure for shrinking: JSON length plus penalties for every non-default knob."""
     n = len(canon(spec))
-    n += 30 * (spec["entry"] != "parproc") + 30 * (spec["entry"] == "visual_legacy") + 30 * (spec["pool"] != "process") + 20 * bool(spec["pickle"])
+    n += 30 * (spec["entry"] != "parproc") + 30 * (spec["entry"] in FILE_ENTRIES) + 30 * (spec["pool"] != "process") + 20 * bool(spec["pickle"])
     n += 20 * (spec["pickable"] != "identity") + 10 * bool(spec["summary"]) + 10 * bool(spec["verbose"])
     n += 10 * spec["knobs"]["tick_max"] + 15 * (spec["max_workers"] or 0) + 5 * spec["cpu_count"] + 20 * bool(spec["knobs"].get("fresh_worker_state"))
     n += 10 * sum(1 for p in spec["payloads"] if p["cls"] == "visual")
